@@ -54,6 +54,9 @@ MOD = {
                 "sdes_item_owned_eq", "unknown_setters", "fb_setters", "rpsi_setters", "nack_add_idempotent",
                 "nack_add_comm", "nack_add_mem", "fir_add_last_wins", "fir_add_comm", "fir_image_perm",
                 "packet_builder_forwards", "compound_singleton"],
+    "EndToEnd": ["fb_nack_end_to_end", "fb_fir_end_to_end", "fb_sli_end_to_end", "fb_rpsi_end_to_end", "fb_pli_end_to_end",
+                 "fci_err_truthful", "parseFci_err_truthful", "packet_err_truthful", "packet_pad_transparent",
+                 "compound_iter_offsets", "sdes_sizes_bounded"],
 }
 WHERE = {t: m for m, ts in MOD.items() for t in ts}
 
@@ -66,7 +69,7 @@ RULES = ["rb_rules", "sr_rules", "rr_rules", "bye_rules", "app_rules", "item_rul
 OBLIGATIONS = {
     "C01": MOD["Total"] + ["checkPacket_no_panic", "parsers_no_panic", "sdes_parse_no_panic", "fci_parsers_no_panic",
                            "compound_parse_no_panic", "compound_iter", "compound_fused", "item_accessors", "chunk_length",
-                           "nack_entries_eq", "fir_entries_eq", "sli_entries_eq", "tiling_length_le"],
+                           "nack_entries_eq", "fir_entries_eq", "sli_entries_eq", "tiling_length_le", "sdes_sizes_bounded"],
     "C02": ["rb_roundtrip", "sr_roundtrip", "rr_roundtrip", "rb_refines", "sr_refines", "rr_refines", "written_eq_image",
             "writeInto_ok", "rb_rules", "sr_rules", "rr_rules"],
     "C03": ["sdes_roundtrip", "refTok_encode", "item_refines", "chunk_refines", "sdes_refines", "written_eq_image",
@@ -76,7 +79,8 @@ OBLIGATIONS = {
     "C05": ["fb_roundtrip", "fb_refines", "nack_roundtrip", "fir_roundtrip", "sli_roundtrip", "rpsi_roundtrip",
             "fir_upsert_lookup", "fir_upsert_keys_unique", "nack_entries_eq", "fir_entries_eq", "sli_entries_eq",
             "rpsi_decode_eq", "pli_parse_ok_iff", "empty_fir_refused", "empty_sli_refused", "fb_rules", "fci_rules",
-            "nack_sorted_empty", "nack_sorted_add", "written_eq_image", "writeInto_ok"],
+            "nack_sorted_empty", "nack_sorted_add", "written_eq_image", "writeInto_ok",
+            "fb_nack_end_to_end", "fb_fir_end_to_end", "fb_sli_end_to_end", "fb_rpsi_end_to_end", "fb_pli_end_to_end"],
     "C06": REFINES + ["writeInto_ok", "writeInto_short", "writeInto_err", "writeInto_no_panic", "length_preserved",
                       "sr_size_mod4", "rr_size_mod4", "bye_size_mod4", "app_size_mod4", "sdes_size_mod4",
                       "unknown_size_mod4", "fb_size_mod4", "compound_size_sum"],
@@ -93,10 +97,10 @@ OBLIGATIONS = {
             "chunk_length", "refTok_encode", "chunkImage_length", "sdes_roundtrip", "ref_rejects_item_overrun",
             "ref_rejects_priv_overrun", "ref_rejects_nonzero_fill"],
     "C11": ["compound_parse_ok_iff", "compound_parse_no_panic", "tiling_sound", "compound_iter", "compound_fused",
-            "tiling_length_le", "compound_iterator_total"],
+            "tiling_length_le", "compound_iterator_total", "compound_iter_offsets"],
     "C12": ["packet_parse_eq", "packet_parse_short", "packet_unknown_data", "packet_data", "tryAs_same",
             "tryAs_mismatch", "tryAs_unknown", "packet_kind"],
-    "C13": MOD["Padding"],
+    "C13": MOD["Padding"] + ["packet_pad_transparent"],
     "C14": ["compound_refines", "compound_size_sum", "compound_accept_iff", "compound_singleton"] + MOD["Compose"],
     "C15": ["parseFci_eq", "nack_entries_eq", "fir_entries_eq", "sli_entries_eq", "rpsi_decode_eq", "rpsi_parse_ok_iff",
             "pli_parse_ok_iff", "fir_parse_ok_iff", "sli_parse_ok_iff", "nack_parse_ok", "fci_parsers_no_panic"],
@@ -105,7 +109,8 @@ OBLIGATIONS = {
                       "writeInto_short"],
     "C18": ["checkPacket_err_truthful", "checkPacket_short", "checkPacket_length_mismatch", "sr_err_truthful",
             "rr_err_truthful", "bye_err_truthful", "app_err_truthful", "fb_err_truthful", "unknown_err_truthful",
-            "rb_err_truthful", "sdes_err_truthful", "compound_err_truthful", "packet_parse_short", "packet_parse_eq"],
+            "rb_err_truthful", "sdes_err_truthful", "compound_err_truthful", "packet_parse_short", "packet_parse_eq",
+            "fci_err_truthful", "parseFci_err_truthful", "packet_err_truthful"],
     "C19": ["checkPacket_ok_iff", "checkPacket_no_panic", "writeHeader_spec", "writeHeader_panic_iff",
             "writePadding_spec", "checkPadding_ok_iff", "custom_refines", "unknown_refines", "custom_roundtrip",
             "unknown_roundtrip", "custom_parse_ok_iff", "custom_rules", "unknown_rules", "tryAs_unknown",
